@@ -195,7 +195,10 @@ def substitute_entity(
             #        try raising an AssertionError instead
             return ''
     else:
-        cp = n2cp.get(ent)
+        # the optional "x" of the pattern belongs to hexadecimal
+        # character references; here it is the first letter of a name
+        # (``&xi;``)
+        cp = n2cp.get(match.group(2) + ent)
 
         if cp:
             return chr(cp)
